@@ -110,7 +110,7 @@ Definition copy_from_extent (o : obj) (e : extent) (inv : bool) : copy_result :=
   match obj_mask o e inv with
   | Err er => CErr er
   | Ok None => CNone
-  | Ok (Some m) => match masked_copy o (Some m) None with
+  | Ok (Some m) => match masked_copy repaired o (Some m) None with   (* Data.copy flag: irrelevant without text children *)
                    | Done o' => CCopy o'
                    | Failed er _ => CErr er
                    end
